@@ -29,7 +29,7 @@ func c06NOpt(ctx core.Ctx) int {
 	return 3*81*2 + 3*2 + 3*2*2 + len(c06OptNames)*4*2 + 3*2 + 4*2 + 3*2 + 8*2 + len(c06OwnAttrForms)*2
 }
 
-var c06OwnAttrForms = []string{"hash-bare", "long-bare", "long-named", "hash-named", "destr"}
+var c06OwnAttrForms = []string{"hash-bare", "long-bare", "long-named", "hash-named", "destr", "destr-underscore-hash", "destr-underscore-long", "destr-underscore-default"}
 
 func c06BuildOpt(i int) c06Case {
 	o := c06Opt{Entry: []string{"vue", "file"}[i%2]}
@@ -290,8 +290,50 @@ func c06ExecOptVBind(c c06Case, o *core.Obs) {
 	}
 }
 
+// destructured prop names are identifiers: an underscore or a digit is part of the name
+func c06ExecOptDestrNames(c c06Case, o *core.Obs) {
+	op := c.Opt
+	body := `<b data-m="row">{{ user_id }}:{{ user }}:{{ label2 }}:{{ id }}:{{ item_2_x }}</b>`
+	open := map[string]string{"destr-underscore-hash": `<template #row="{ user_id, label2, item_2_x }">`, "destr-underscore-long": `<template v-slot:row="{user_id,label2,item_2_x}">`,
+		"destr-underscore-default": `<template v-slot="{ user_id , label2 , item_2_x }">`}[op.Form]
+	slot := `<slot name="row" :user_id="7" :label2="'S'" :item_2_x="it">FB</slot>`
+	if op.Form == "destr-underscore-default" {
+		slot = `<slot :user_id="7" :label2="'S'" :item_2_x="it">FB</slot>`
+	}
+	page := `<template include="comp.vuego">` + open + body + `</template></template>`
+	comp := `<ul data-m="comp"><li v-for="it in rows">` + slot + `</li></ul>`
+	files := map[string]string{"page.vuego": page, "comp.vuego": comp}
+	data := map[string]any{"user": "ann", "id": "I9", "rows": []any{"r1", "r2"}}
+	var out string
+	var err error
+	if op.Entry == "vue" {
+		out, err = renderVue(memFS(files), "page.vuego", data)
+	} else {
+		out, err = renderFile(memFS(files), "page.vuego", data)
+	}
+	o.Evals++
+	o.NT("opt-destrnames", mustJSON(op))
+	o.Cell("part/opt/destrnames/" + op.Form)
+	if err != nil {
+		o.Fail(c, "opt/destrnames/render-error", "render failed: %v\npage: %s", err, page)
+		return
+	}
+	var got []string
+	for _, r := range oracle.Parse(out, false).ByAttr("data-m", "row") {
+		got = append(got, r.InnerText())
+	}
+	want := "7:ann:S:I9:r1 ; 7:ann:S:I9:r2"
+	if strings.Join(got, " ; ") != want {
+		o.Fail(c, "opt/destrnames/destructured-prop-with-underscore-or-digit-lost/"+op.Form, "destructured slot props user_id, label2, item_2_x next to the includer's user and id: want %q, got %v\npage: %s\ncomponent: %s\noutput: %s", want, got, page, comp, out)
+	}
+}
+
 func c06ExecOptOwnAttrs(c c06Case, o *core.Obs) {
 	op := c.Opt
+	if strings.HasPrefix(op.Form, "destr-underscore") {
+		c06ExecOptDestrNames(c, o)
+		return
+	}
 	body, want := `<b data-m="row">{{ name }}|{{ k }}</b>`, "Alice|K"
 	sup := ""
 	switch op.Form {
